@@ -85,9 +85,9 @@ CLAIMED = {
    note="Matrix builds are g++ -O2 without sanitizers; memory-use counters are excluded from the cross-build hash (node sizes legitimately differ).",
    technique="deterministic simulation: identical seeded executions replayed across build configurations, differential + model oracle"),
  "C17": dict(engine="ptrsim", level="exploration", design="DESIGN.md §6 C17",
-   text="An interpreter over qsbr_ptr<std::byte> and qsbr_ptr_span slots (construct, default, copy, move, copy-/move-assign, ++ -- += -= + -, difference, comparisons, dereference/index/write, destroy) on 2-3 QSBR threads, "
+   text="An interpreter over qsbr_ptr<std::byte> / qsbr_ptr_span<std::byte> slots and qsbr_ptr<uint32_t> / qsbr_ptr_span<uint32_t> (sizes and arithmetic in elements, not bytes) (construct, default, copy, move, copy-/move-assign, ++ -- += -= + -, difference, comparisons, dereference/index/write, destroy) on 2-3 QSBR threads, "
         "each step mirrored on a raw-pointer shadow; probes call quiescent()/qsbr_pause() under setjmp with the harness' __assert_fail jumping back: in assertion builds a probe must be rejected iff the probing thread's "
-        "shadow multiset of live non-null wrappers is non-empty; any other assertion is a violation. NDEBUG builds check the equivalence half.",
+        "shadow multiset of live non-null wrappers is non-empty; any other assertion is a violation; null wrappers (default-constructed, moved-from) are copied, assigned and destroyed while the thread is paused. NDEBUG builds check the equivalence half.",
    note="The schedule dimension is thin (per-thread registries; switches at operation boundaries).",
    technique="deterministic simulation: seeded interpreter with raw-pointer shadow model and assertion-intercepting liveness probes"),
 }
